@@ -649,7 +649,7 @@ reg(HistProp('C20', cfg_c20, probes_c20, quick=400, thorough=12000,
                   'checked (Segment.Check of every file), opened read-write or read-only and fully observed (scan, Get of every '
                   'offset, Stat) against the source state at the time of the call; non-trivial = at least one repeated backup',
              nontrivial=lambda ops: len([o for o in ops if o.startswith('backup')]) >
-             len({o for o in ops if o.startswith('backup')})))
+             len({o for o in ops if o.startswith('backup')}), extra=codec.c20_extra))
 reg(HistProp('C17', cfg_c17, probes_c17, quick=400, thorough=12000,
              rule='every reopen redraws NewSegmentsVersion/KeepRewriteVersion/EagerVersionMigrate and may Migrate to V1 or V2; '
                   'scan/next/stat after each op, file versions and sizes at every close; non-trivial = >= 2 reopens with deletes',
